@@ -1269,6 +1269,9 @@ STATE_SWITCH:
                         // We now need to check if this is the last boundary in the payload
                         parser->parser_state = STATE_BOUNDARY_IS_LAST2;
 
+                        // The jump below skips the loop guard; do not read past the end of the chunk.
+                        if (pos >= len) return HTP_OK;
+
                         goto STATE_SWITCH;
                     }
                 } // while
